@@ -52,11 +52,24 @@ def _in_ranges(x, ranges):
     return z3.Or(parts)
 
 
-def width_class_conds(x):
-    """[(cond, width-or-None)] mutually exclusive and exhaustive over scalar values (x: BV32)."""
+SPLIT = 0x800
+
+
+def width_class_conds(x, low=None):
+    """[(cond, width-or-None)] mutually exclusive and exhaustive over scalar values (x: BV32).
+    low=True/False restricts the tables to code points below/at-or-above SPLIT (the caller has already
+    forked on that), which keeps the common formulas small."""
     by = {-1: [], 0: [], 2: []}
     for lo, hi, w in _W:
         if w in by:
+            if low is True:
+                if lo >= SPLIT:
+                    continue
+                hi = min(hi, SPLIT - 1)
+            elif low is False:
+                if hi < SPLIT:
+                    continue
+                lo = max(lo, SPLIT)
             by[w].append((lo, hi))
     cn = _in_ranges(x, by[-1])
     c0 = _in_ranges(x, by[0])
@@ -65,8 +78,48 @@ def width_class_conds(x):
     return [(c1, 1), (c2, 2), (c0, 0), (cn, None)]
 
 
-def combining_cond(x):
-    return _in_ranges(x, _C)
+def combining_cond(x, low=None):
+    rs = []
+    for lo, hi in _C:
+        if low is True:
+            if lo >= SPLIT:
+                continue
+            hi = min(hi, SPLIT - 1)
+        elif low is False:
+            if hi < SPLIT:
+                continue
+            lo = max(lo, SPLIT)
+        rs.append((lo, hi))
+    return _in_ranges(x, rs)
+
+
+_unstable = None
+
+
+def nfc_unstable_ranges():
+    """Ranges of single code points c with NFC(c) != c (Python's unicodedata; used only to exclude them)."""
+    global _unstable
+    if _unstable is None:
+        rs = []
+        start = None
+        prev = None
+        for cp in range(0x80, 0x110000):
+            if 0xD800 <= cp <= 0xDFFF:
+                continue
+            if unicodedata.normalize('NFC', chr(cp)) != chr(cp):
+                if start is None or cp != prev + 1:
+                    if start is not None:
+                        rs.append((start, prev))
+                    start = cp
+                prev = cp
+        if start is not None:
+            rs.append((start, prev))
+        _unstable = rs
+    return _unstable
+
+
+def nfc_unstable_cond(x):
+    return _in_ranges(x, nfc_unstable_ranges())
 
 
 def nfc(s):
